@@ -78,7 +78,8 @@ def frame_desc(draw) -> Dict[str, Any]:
             row["index"] = per_rank[row["rank"]]
     for i, row in enumerate(rows):
         row["_uid"] = i  # the row's position in the input frame: its identity for the oracle
-    variant = draw(st.sampled_from(["encoded", "encoded", "s_name", "replace"]))
+    # s_name_only: only the name was decoded (an s_name column without an s_cat column)
+    variant = draw(st.sampled_from(["encoded", "encoded", "s_name", "replace", "s_name_only"]))
     str_dtype = draw(st.sampled_from(["str", "object"]))
     return {"rows": rows, "sym_order": list(sym_order), "variant": variant, "str_dtype": str_dtype,
             "cols": {"iteration": has_iter, "rank": has_rank, "stream": has_stream}}
@@ -247,9 +248,11 @@ def build_frame(fd: Dict[str, Any]):
         if c not in ("name", "cat"):
             df[c] = df[c].astype("int64")
     dtype = "str" if fd["str_dtype"] == "str" else object
-    if fd["variant"] in ("encoded", "s_name"):
+    if fd["variant"] in ("encoded", "s_name", "s_name_only"):
         df["name"] = pd.Series([st_.sym_index[r["name"]] for r in rows], dtype="int64")
         df["cat"] = pd.Series([st_.sym_index[r["cat"]] for r in rows], dtype="int64")
+        if fd["variant"] == "s_name_only":
+            df["s_name"] = pd.Series([r["name"] for r in rows], dtype=dtype)
         if fd["variant"] == "s_name":
             df["s_name"] = pd.Series([r["name"] for r in rows], dtype=dtype)
             df["s_cat"] = pd.Series([r["cat"] for r in rows], dtype=dtype)
